@@ -161,8 +161,10 @@ func calculateExecutionType(
 		return unifiedT
 
 	case base.OPTIONAL_UNIFY:
-		m.evaluatedObjectT.AppendVariant(*base.MakeNil())
-		unifiedT := base.MakeUnifiedT(m.evaluatedObjectT.GetVariants())
+		// the receiver itself must not gain a nil element: work on a copy
+		receiverT := m.evaluatedObjectT.DeepCopy()
+		receiverT.AppendVariant(*base.MakeNil())
+		unifiedT := base.MakeUnifiedT(receiverT.GetVariants())
 
 		return unifiedT
 
